@@ -297,13 +297,32 @@ func TestC03Net(t *testing.T) {
 		}
 		t.Fatalf("VERIF-INCONCLUSIVE the sentinel got no keep-alive reply within 30 s after the storm (%v); server still running", err)
 	}
-	time.Sleep(4 * time.Second) // transfer tails / delayed disconnects
-	r, err = sentinel.request(hlref.TranGetUserNameList, 30*time.Second)
-	if err != nil {
-		t.Fatalf("VERIF-INCONCLUSIVE no user list within 30 s: %v", err)
-	}
-	if n := len(r.GetAll(hlref.FUsernameWithInfo)); n != 1 {
-		t.Fatalf("VERIF-VIOLATION C03 after %d hostile connections were closed the user list has %d entries instead of the one well-behaved client", nconn, n)
+	// "all its resources released": the user list must converge to the one well-behaved client.  No wall-clock
+	// allowance decides: a count that is still falling is slowness (busy machine), a count that stays above one
+	// for 60 s while the server answers is a leak; 5 minutes without convergence is inconclusive.
+	last, lastChange, start := -1, time.Now(), time.Now()
+	for {
+		r, err = sentinel.request(hlref.TranGetUserNameList, 30*time.Second)
+		if err != nil {
+			if !alive() {
+				t.Fatalf("VERIF-VIOLATION C03 the server process terminated:\n%s", childLog())
+			}
+			t.Fatalf("VERIF-INCONCLUSIVE no user list within 30 s: %v", err)
+		}
+		n := len(r.GetAll(hlref.FUsernameWithInfo))
+		if n == 1 {
+			break
+		}
+		if n != last {
+			last, lastChange = n, time.Now()
+		}
+		if time.Since(lastChange) > 60*time.Second {
+			t.Fatalf("VERIF-VIOLATION C03 after %d hostile connections were closed the user list stays at %d entries for 60 s instead of the one well-behaved client", nconn, n)
+		}
+		if time.Since(start) > 5*time.Minute {
+			t.Fatalf("VERIF-INCONCLUSIVE the user list did not converge within 5 minutes (still %d entries, still changing)", n)
+		}
+		time.Sleep(500 * time.Millisecond)
 	}
 	if !alive() {
 		t.Fatalf("VERIF-VIOLATION C03 the server process terminated:\n%s", childLog())
